@@ -68,7 +68,7 @@ def run(ctx):
     if nel < 20:
         raise vlib.Infra("vacuous run: only %d elections recorded" % nel)
     # self-test: elect a frozen/expired node in a recorded election
-    seg0, done = [], False
+    seg0, done, forged_ids = [], False, []
     for ln in lines:
         if '"ev":"begin_chain"' in ln and seg0:
             break
@@ -77,7 +77,13 @@ def run(ctx):
             e["nodes"][0]["frozen"] = True
             e["nodes"][-1]["frozen"] = True
             e["nodes"][len(e["nodes"]) // 2]["frozen"] = True
+            forged_ids = [e["nodes"][0]["id"], e["nodes"][-1]["id"], e["nodes"][len(e["nodes"]) // 2]["id"]]
             done = True
+        elif e.get("ev") == "elect_out" and done and forged_ids:
+            # (the status the election found is read once it is over: the forged freeze has to be there, too)
+            for i in forged_ids:
+                e.setdefault("status_after", {}).setdefault(i, {"susp": []})["frozen"] = True
+            forged_ids = []
         seg0.append(json.dumps(e) + "\n")
     rej2, _, _ = cc.validate(ctx, seg0, "TraceElection", "traceelection.cfg")
     if not rej2:
